@@ -130,7 +130,7 @@ CHECKS = {
         "text": "Work is measured as executed loop back-edges per loop site inside biobalm (sys.monitoring) and bounded by a closed-form "
                 "budget of the state-space and diagram size; every public operation on every input of the universes and on every "
                 "diagram state reachable by one call of the full alphabet must finish below the budget (else it is aborted from inside "
-                "the callback and reported with the loop's file:line); soft and hard timeouts count as violations. Also: the smallest values of the numeric configuration fields on stub queries and bfs+seeds, free-input networks, and name sanitization on every ordered triple of an awkward-name pool.",
+                "the callback and reported with the loop's file:line); soft and hard timeouts count as violations. Also: the smallest values of the numeric configuration fields on stub queries and bfs+seeds, free-input networks, a hand-made 4-variable cycle+fixed-point shape under all 24 variable orders (SHAPES4), and name sanitization on every ordered triple of an awkward-name pool.",
         "ref": "DESIGN.md §3 C13", "note": TB + " Bounded termination only: no ranking-function proof beyond the enumerated space.",
         "technique": "explicit-state model checking with a work monitor: exhaustive enumeration of inputs and call histories, loop back-edge budgets per loop site",
     },
